@@ -14,6 +14,7 @@ import time
 VERIF = os.path.dirname(os.path.dirname(os.path.abspath(__file__)))
 REPO = os.environ.get("VERIF_REPO", "/repo")
 WORK = os.environ.get("VERIF_WORK", os.path.join(VERIF, ".work"))
+OUT = os.environ.get("VERIF_OUT", VERIF)  # evidence/ and replays/ land here (scratch runs against mutants set it)
 JOBS = int(os.environ.get("VERIF_JOBS", "0") or 0) or (os.cpu_count() or 4)
 
 sys.path.insert(0, os.path.join(VERIF, "harness"))
@@ -88,11 +89,15 @@ def pkg_clauses(files):
     return names
 
 
-def build_unit(unit, wdir, race=False):
-    """unit = 'mod:pkg/path'. Returns path of the test binary or raises."""
+def build_unit(unit, wdir, race=False, prefixes=("",)):
+    """unit = 'mod:pkg/path'. Only harness files whose name starts with one of
+    `prefixes` (the property's own files plus shared_*) are compiled in, so a
+    harness that stops compiling after an internal rename cannot take other
+    properties' checks down with it. Returns path of the test binary or raises."""
     mod, pkg = unit.split(":")
     hdir = os.path.join(VERIF, "harness", mod, pkg)
-    files = sorted(glob.glob(os.path.join(hdir, "*_test.go")))
+    files = sorted(f for f in glob.glob(os.path.join(hdir, "*_test.go"))
+                   if any(os.path.basename(f).startswith(p) for p in prefixes))
     if not files:
         raise RuntimeError("no harness files in " + hdir)
     key = (mod + "_" + pkg).replace("/", "_") + ("_race" if race else "")
@@ -236,7 +241,7 @@ def load_known(pid):
 
 
 def save_replay(pid, proc):
-    rdir = os.path.join(VERIF, "replays", pid)
+    rdir = os.path.join(OUT, "replays", pid)
     os.makedirs(rdir, exist_ok=True)
     fails = glob.glob(os.path.join(proc.cwd, "testdata", "rapid", "**", "*.fail"), recursive=True)
     crash = [f for f in glob.glob(os.path.join(proc.cwd, "testdata", "fuzz", "*", "*")) if os.path.isfile(f)
@@ -328,10 +333,10 @@ def write_evidence(pid, tier, seed, prop, tests, procs, violations, wall, notes)
         "wall_s": round(wall, 2),
         "violations": violations,
     }
-    os.makedirs(os.path.join(VERIF, "evidence"), exist_ok=True)
-    tmp = os.path.join(VERIF, "evidence", ".%s.json.tmp" % pid)
+    os.makedirs(os.path.join(OUT, "evidence"), exist_ok=True)
+    tmp = os.path.join(OUT, "evidence", ".%s.json.tmp" % pid)
     json.dump(ev, open(tmp, "w"), indent=1, sort_keys=True)
-    os.replace(tmp, os.path.join(VERIF, "evidence", "%s.json" % pid))
+    os.replace(tmp, os.path.join(OUT, "evidence", "%s.json" % pid))
 
 
 def stage_corpus(spec, cwd):
@@ -343,6 +348,11 @@ def stage_corpus(spec, cwd):
         os.makedirs(dst, exist_ok=True)
         for f in os.listdir(src):
             shutil.copy(os.path.join(src, f), os.path.join(dst, "seed-" + f))
+
+
+def prefixes_of(pid):
+    p = registry.PROPS[pid]
+    return tuple(p.get("file_prefixes", [pid.lower() + "_"])) + ("shared_",)
 
 
 def run_property(pid, tier, base_seed):
@@ -361,7 +371,7 @@ def run_property(pid, tier, base_seed):
         need.add((spec["unit"], bool(spec.get("race"))))
     try:
         with cf.ThreadPoolExecutor(max_workers=4) as ex:
-            futs = {ex.submit(build_unit, u, wdir, r): (u, r) for (u, r) in sorted(need)}
+            futs = {ex.submit(build_unit, u, wdir, r, prefixes_of(pid)): (u, r) for (u, r) in sorted(need)}
             for f in cf.as_completed(futs):
                 bins[futs[f]] = f.result()
     except RuntimeError as e:
@@ -468,7 +478,7 @@ def run_replay(pid, path):
     wdir = os.path.join(WORK, "%s-replay" % pid)
     shutil.rmtree(wdir, ignore_errors=True)
     try:
-        b = build_unit(spec["unit"], wdir, bool(spec.get("race")))
+        b = build_unit(spec["unit"], wdir, bool(spec.get("race")), prefixes_of(pid))
     except RuntimeError as e:
         log(str(e))
         return 2
